@@ -1139,6 +1139,11 @@ func (it *Interp) convert(v Value, from, to types.Type) Value {
 	if types.Identical(from.Underlying(), to.Underlying()) {
 		return v
 	}
+	if isUnsafePtr(from) || isUnsafePtr(to) { // *T <-> unsafe.Pointer: addresses are concrete objects, the view is unchanged
+		if _, ok := v.(Ptr); ok {
+			return v
+		}
+	}
 	if sv, ok := v.(*StrV); ok {
 		if sl, ok := to.Underlying().(*types.Slice); ok {
 			if b, ok := sl.Elem().Underlying().(*types.Basic); ok && b.Kind() == types.Uint8 {
@@ -1185,6 +1190,11 @@ func (it *Interp) convert(v Value, from, to types.Type) Value {
 	}
 	it.unsup("convert %s -> %s (%T)", from, to, v)
 	return nil
+}
+
+func isUnsafePtr(t types.Type) bool {
+	b, ok := t.Underlying().(*types.Basic)
+	return ok && b.Kind() == types.UnsafePointer
 }
 
 func (it *Interp) lenLE(i int64, ln Value) Value {
